@@ -19,7 +19,7 @@ class C02(Prop):
     design_ref = "DESIGN.md §6 C02"
     # translator tie (DESIGN II.7): src/scheduler.rs itself — TaskHandle's two Subscription impls and the poll functions of
     # Remote / OnceTask / FutureTask / RepeatTask, regenerated from the compiler-expanded source on every run
-    tie_modules = {"RxModel.GenTie.Scheduler": [], "RxModel.GenTie.PinsSched": [],
+    tie_modules = {"RxModel.GenTie.Scheduler": [], "RxModel.GenTie.PinsSched": [], "RxModel.GenTie.PinsCore": [],
                    # every task an operator schedules leaves its handle in the composite the subscription tears down, and a late
                    # handle appended to an unsubscribed composite is cancelled at once: the ties of the operators that schedule
                    "RxModel.GenTie.Subscription": [], "RxModel.GenTie.Delay": [], "RxModel.GenTie.DelayThreads": [],
